@@ -11,6 +11,8 @@ Atomic file replacement (C52).  Transcribes, as primitive traces over `Fs/Sim.le
     `_saveTemp(filename)` = `open(filename, "wb")` (creates or truncates) + `dumpFunc(original, f)` + close;
     `os.rename(filename, finalname)`     (again without the win32 `os.remove(finalname)` branch).
   What `dumpFunc` writes (pickle protocol 2 / AOT source) is a parameter: the bytes `data`.
+* histories of calls on one `FilePath` / `Persistent` object (`setContentHist`, `saveHist`), a dump function that
+  raises (`saveFailTrace`) and a primitive that raises instead of the process being killed (`failAt`): end of file.
 -/
 namespace Twisted.Fs.SetContent
 open Twisted.Fs
@@ -55,5 +57,57 @@ def saveTraceNames (final tmp : Name) (data : Bytes) : List Prim :=
 def saveTrace (name : Name) (filename tag : Option Name) (ext : Name) (data : Bytes) : List Prim :=
   let (final, tmp) := getFilename name filename tag ext
   saveTraceNames final tmp data
+
+/-! ### histories: several calls on the SAME `FilePath` / `Persistent` object, and failing dumps -/
+
+/-- one `setContent(content, ext)` call (with the 16 random characters it drew) -/
+structure SCOp where
+  rnd : Name
+  ext : Name
+  content : Bytes
+deriving Repr, DecidableEq
+
+/-- a complete (uncut) `setContent` call: a refused call (FileExistsError) changes nothing -/
+def setContentDone (base : Name) (fs : Fs) (op : SCOp) : Fs :=
+  match setContentTrace fs base op.rnd op.ext op.content with
+  | .ok tr => run tr fs
+  | .error _ => fs
+
+/-- the directory after the earlier calls of a history -/
+def setContentHist (fs : Fs) (base : Name) (ops : List SCOp) : Fs := ops.foldl (setContentDone base) fs
+
+/-- one `Persistent.save(tag, filename)` call in the style with extension `ext`; `data = none`: the
+    dump function raises (object that cannot be pickled / jellied) — `pickle.dump` and
+    `jellyToSource` build their whole output before the first `file.write`, so nothing is written -/
+structure SaveOp where
+  filename : Option Name
+  tag : Option Name
+  ext : Name
+  data : Option Bytes
+deriving Repr, DecidableEq
+
+/-- the final / temporary name of one save -/
+def SaveOp.final (op : SaveOp) (name : Name) : Name := (getFilename name op.filename op.tag op.ext).1
+def SaveOp.tmp (op : SaveOp) (name : Name) : Name := (getFilename name op.filename op.tag op.ext).2
+
+/-- `_saveTemp` when the dump raises: `open(filename, "wb")` happened, the `with` exit closes an
+    empty file, the exception leaves `save` before `os.rename` -/
+def saveFailTrace (name : Name) (filename tag : Option Name) (ext : Name) : List Prim :=
+  [.create (getFilename name filename tag ext).2]
+
+def saveOpTrace (name : Name) (op : SaveOp) : List Prim :=
+  match op.data with
+  | some d => saveTrace name op.filename op.tag op.ext d
+  | none => saveFailTrace name op.filename op.tag op.ext
+
+def saveHist (fs : Fs) (name : Name) (ops : List SaveOp) : Fs :=
+  ops.foldl (fun fs op => run (saveOpTrace name op) fs) fs
+
+/-- A primitive that FAILS with an exception (ENOSPC from a write after `p` bytes, EMFILE from the
+    open, EIO from the rename, a KeyboardInterrupt delivered there) instead of the process being
+    killed: neither `setContent` nor `save`/`_saveTemp` has an `except`/`finally` clause, and the
+    only handler on the way out is the `with` exit closing the file — whose flush IS the failing
+    primitive.  So the directory is the one a crash at that cut leaves. -/
+def failAt (tr : List Prim) (k p : Nat) (fs : Fs) : Fs := crashAt tr k p fs
 
 end Twisted.Fs.SetContent
